@@ -170,6 +170,14 @@ pub fn run(cfg: &J) -> J {
                 if direct != text {
                     bad.push(json!({"rule":"text","why":"printing through a delegating formatter differs from to_string","v":val_to_json(v)}));
                 }
+                // Display is documented as the default printer's text
+                if format!("{}", v).into_bytes() != text {
+                    bad.push(json!({"rule":"text","why":"Display differs from to_string","v":val_to_json(v)}));
+                }
+                let mut w = Vec::new();
+                if lexpr::to_writer(&mut w, v).is_err() || w != text || lexpr::to_vec(v).ok() != Some(text.clone()) {
+                    bad.push(json!({"rule":"text","why":"to_writer / to_vec differ from to_string","v":val_to_json(v)}));
+                }
                 let cat: Vec<u8> = evs.iter().flat_map(|e| j_bytes(&e["out"])).collect();
                 if cat != text {
                     bad.push(json!({"rule":"text","why":"the output is not the concatenation of what the callbacks wrote","v":val_to_json(v)}));
